@@ -32,7 +32,7 @@ Section Refine.
   Proof.
     intros HI HA Ha He Hac HS.
     destruct (step_Sim children fuel s a o HI Ha He HS) as [_ Hout].
-    destruct o as [c p i|x| |T|T|k|x f y ia ib|]; try discriminate; try exact Hout.
+    destruct o as [c p i|x| |T|T|T|k|x f y ia ib|]; try discriminate; try exact Hout.
     - (* QueryG *) simpl. rewrite <- (sim_live _ _ HS).
       apply instances_perm; auto.
       + apply sweep_inv, HI. + apply HI. + apply sweep_swept. + apply AllReg_sweep; auto. apply HI.
